@@ -144,6 +144,13 @@ def cases(rng, tier):
         ctxs = [imp, f"ㄹ ㅁ ({imp} ㅎ) ㅎㄷ", f"({imp}) (ㄱㅇㄱ ㅎ) ㅎㄴ", f"({imp}) ({imp}) ㄴㅎㄷ"]
         for j, prog in enumerate(ctxs):
             yield Case(program=prog, fs=fs, tag=f'{mode}:ctx{j}')
+        # what was imported before (by path string) has no say in how literals resolve: ambiguity stays ambiguity,
+        # a missing module stays missing, a unique one stays the same object
+        if mode != 'missing' and isinstance(fs.get(target), bytes):
+            by_path0 = render(bi('ㅂ', str_lit(target)))
+            yield Case(program=f"(({by_path0}) (ㄱ ㅎ) ㅅㄷㅎㄷ) (({imp}) (ㄱㅇㄱ ㅎ) ㅅㄷㅎㄷ) ㅁㄹㅎㄷ", fs=fs, tag=f'{mode}:after-path')
+            yield Case(program=f"(({by_path0}) (ㄱ ㅎ) ㅅㄷㅎㄷ) ((ㄱ ({imp}) ㅁㄹㅎㄷ ㅎ) ㅎㄱ) ㅁㄹㅎㄷ".replace("((ㄱ (", "(((ㄱ (").replace("ㅁㄹㅎㄷ ㅎ) ㅎㄱ)", "ㅁㄹㅎㄷ ㅎ) ㅎㄱ) (ㄱㅇㄱ ㅎ) ㅅㄷㅎㄷ)"),
+                       fs=fs, tag=f'{mode}:after-path-in-fn')
         # import by path string equals import by literals, and both equal the text evaluated alone
         if mode == 'unique':
             by_path = render(bi('ㅂ', str_lit(target)))
@@ -168,7 +175,7 @@ SPEC = {
             'directories, in the variants unique / ambiguous sibling / ambiguous at an upper level / regular file matching an '
             'intermediate component / missing / empty / two-expression module × module texts (literal, expression, function, '
             'list, raising, argument / function reference that must not resolve) × importing contexts (top level, inside a '
-            'function with arguments, as an argument, twice under ㄴ); import by path vs by literals; every spelling of the path (relative, ./, dir/.., absolute, through symbolic links) against the literal route: same object and the text of the module evaluated once (observer events inside the module file counted); imported value vs the '
+            'function with arguments, as an argument, twice under ㄴ); import by path vs by literals; literal import after the same / a sibling file was imported by path (ambiguity and errors unchanged); every spelling of the path (relative, ./, dir/.., absolute, through symbolic links) against the literal route: same object and the text of the module evaluated once (observer events inside the module file counted); imported value vs the '
             'text evaluated alone; observer events of a triple import. Implementation vs model. Non-trivial: all',
     'trusted': ['os.listdir / os.path of the host on a real scratch tree'],
     'assumptions': ['the module registry is reset between cases (harness) — sessions are C20'],
